@@ -11,7 +11,7 @@ RULE = ("Jalali years 1200..1500: every month and every valid day (incl. Esfand 
         "YYYY/MM/DD, YYYY-MM-DD, Persian digits, 'D <month> YYYY' for every listed month-name variant (ASCII and Persian digits), "
         "with every variant of the correct weekday name, spelled-out day (every listed variant, with and without the ordinal "
         "suffix), HH:MM, HH:MM:SS in Persian digits and the 'saat HH va MM daghighe' clock. Hijri 1343..1500 (quick every 9th "
-        "year): YYYY/MM/DD, YYYY-MM-DD, DD-MM-YYYY for DD>12, with HH:MM sabahan/masa'an. Oracle: direct calls to "
+        "year): YYYY/MM/DD, YYYY-MM-DD, DD-MM-YYYY and MM-DD-YYYY for DD>12, with HH:MM sabahan/masa'an. Oracle: direct calls to "
         "convertdate.persian.to_gregorian / hijridate.Hijri.to_gregorian, themselves self-checked (consecutive days map to "
         "consecutive Gregorian days; Jalali year lengths 365/366, Hijri months 28..31 days (hijridate's table has 8 irregular months in 1343-1364) and years 353..356 days). non-trivial distinct = distinct (calendar, spelling, "
         "date).")
@@ -67,12 +67,16 @@ def jalali_forms(y, m, d, g, full, rnd):
     months = list(jp._months.items())
     wds = dict(jp._weekdays.items())
     forms = [("num/", g, "%04d/%02d/%02d" % (y, m, d))]
+    if d > 12:
+        # month first, the library's default field order; unambiguous because the second field cannot be a month
+        forms.append(("mm/dd/yyyy", g, "%02d/%02d/%04d" % (m, d, y)))
     if not full:
         return forms
     forms += [("num-", g, "%04d-%02d-%02d" % (y, m, d)), ("num-persian-digits", g, pers("%04d/%02d/%02d" % (y, m, d)))]
     names = months[m - 1][1][2]
     for nm in names:
         forms.append(("month-name", g, "%d %s %d" % (d, nm, y)))
+        forms.append(("month-name-first", g, "%s %d %d" % (nm, d, y)))
         forms.append(("month-name-persian-digits", g, pers("%d %s %d" % (d, nm, y))))
     mname = rnd.choice(names)
     wd_en = [k for k, v in WDIDX.items() if v == g.weekday()][0]
@@ -171,6 +175,8 @@ def run_hijri(ctx, desc):
                          ("time-pm", g.replace(hour=21, minute=5), "%04d/%02d/%02d 09:05 مساءً" % (y, m, d))]
                 if d > 12:
                     forms.append(("dd-mm-yyyy", g, "%02d-%02d-%04d" % (d, m, y)))
+                    forms.append(("mm-dd-yyyy", g, "%02d-%02d-%04d" % (m, d, y)))
+                    forms.append(("mm/dd/yyyy-time", g.replace(hour=9, minute=5), "%02d/%02d/%04d 09:05 صباحاً" % (m, d, y)))
                     forms.append(("dd-mm-yyyy-time", g.replace(hour=21, minute=5), "%02d-%02d-%04d 09:05 مساءً" % (d, m, y)))
                 for kind, exp, s in forms:
                     check(ctx, "hijri", kind, exp, s)
